@@ -3,6 +3,7 @@ import TypifyModel.Model.Integer
 import TypifyModel.Generated.Tables
 import TypifyModel.Model.ConvertString
 import TypifyModel.Model.ConvertArray
+import TypifyModel.Model.ConvertObject
 import TypifyModel.Generated.StringFormats
 import TypifyModel.Driver.Regex
 /-! Driver glue for slice `c10`: JSON schema line → `IntSchema` → `convertInteger`. -/
@@ -85,12 +86,40 @@ def handleArray (j : Json) : String :=
      | .invalid => "err InvalidSchema")
   | _, _ => "unsupported"
 
+/-- `{type: object, properties?, required?, patternProperties?, additionalProperties?, propertyNames?}` →
+    `ConvertObject.convertObject`; a bare `{type: object}` is the source's `None` validation -/
+def handleObject (j : Json) : String :=
+  let size (k : String) : Nat :=
+    match j.getObjVal? k with
+    | .ok (.obj m) => m.toList.length
+    | .ok (.arr a) => a.size
+    | _ => 0
+  let pats : List Json := match j.getObjVal? "patternProperties" with | .ok (.obj m) => m.toList.map (·.2) | _ => []
+  let same := match pats with | [] => true | p :: r => r.all (fun q => q.compress == p.compress)
+  let addl : ConvertObject.Addl :=
+    match j.getObjVal? "additionalProperties" with
+    | .ok (.bool true) => .true_
+    | .ok (.bool false) => .false_
+    | .ok _ => .schema
+    | .error _ => .absent
+  let keys := ["properties", "required", "patternProperties", "additionalProperties", "propertyNames", "minProperties", "maxProperties"]
+  let present := keys.any (fun k => (j.getObjVal? k).toOption.isSome)
+  let v : ConvertObject.ObjV :=
+    { present := present, required := size "required", properties := size "properties", patternProps := pats.length,
+      patternSame := same, additional := addl, propertyNames := (j.getObjVal? "propertyNames").toOption.isSome }
+  match ConvertObject.convertObject v with
+  | .struct => "struct"
+  | .map k w =>
+    "map key=" ++ (match k with | .string => "string" | .propertyNames => "propertyNames" | .patterns => "patterns") ++
+    " value=" ++ (match w with | .any => "any" | .additional => "additional" | .patternSchema => "pattern")
+
 def handle (line : String) : String :=
   match Json.parse line with
   | .error _ => "unsupported"
   | .ok j =>
     if (j.getObjValAs? String "type").toOption == some "string" then handleString j else
     if (j.getObjValAs? String "type").toOption == some "array" then handleArray j else
+    if (j.getObjValAs? String "type").toOption == some "object" then handleObject j else
     match parseSchema j with
     | .error _ => "unsupported"
     | .ok s =>
